@@ -192,6 +192,8 @@ def handle(c):
                 p.run_model(reset_iter_counts=False)
             elif r == 'driver':
                 p.run_driver(case_prefix='d%d' % j)
+            elif r == 'driver_cont':
+                p.run_driver(reset_iter_counts=False)
             elif r.startswith('record:'):
                 p.record(r[7:])
     except Exception as e:   # noqa
